@@ -7,7 +7,10 @@ git checkout -q --detach "$(git -C /repo rev-parse HEAD)" 2>/dev/null
 git checkout -q -- . ; git clean -fdq -- tests
 NAME=seed_demo_$$
 git apply "$PATCH" || { echo "PATCH_APPLIES=no"; exit 1; }
-if CARGO_NET_OFFLINE=true cargo test --offline 2>&1 | grep -E "^test result" | grep -v " 0 failed" | grep -q .; then echo TESTS_WITH_PATCH=fail; else echo TESTS_WITH_PATCH=ok; fi
+OUT=$(CARGO_NET_OFFLINE=true cargo test --offline 2>&1)
+NOK=$(echo "$OUT" | grep -cE "^test result: ok")
+NBAD=$(echo "$OUT" | grep -E "^test result" | grep -vc " 0 failed")
+if [ "$NOK" -ge 4 ] && [ "$NBAD" -eq 0 ]; then echo TESTS_WITH_PATCH=ok; else echo "TESTS_WITH_PATCH=fail (ok lines=$NOK, bad=$NBAD) $(echo "$OUT" | grep -E "^error" | head -3)"; fi
 cp "$DEMO" tests/$NAME.rs
 if CARGO_NET_OFFLINE=true cargo test --offline --test $NAME 2>&1 | grep -E "^test result" | grep -q " 0 failed"; then echo DEMO_WITH_PATCH=pass; else echo DEMO_WITH_PATCH=fail; fi
 git checkout -q -- src
